@@ -382,8 +382,46 @@ class C07(Check):
 
                 self._with_table(case, one)
 
+    def _scandir_faults(self, case: Any, res: CaseResult) -> None:
+        """the directory walk itself fails (EACCES/EIO from scandir) - a failure one level below list_files()"""
+        if case["backend"] != "local":
+            return
+        for sub in ("metadata/inflight", "data", "metadata/manifests"):
+            def one(h: history.History, ip: Interposer, store: Any, rng: Any) -> None:
+                sc = build(h, rng)
+                before = reader.file_fingerprint(h.blobs())
+                target = os.path.realpath(os.path.join(h.root, sub))
+                real_scandir = os.scandir
+                fired: List[str] = []
+
+                def scandir(path: Any = ".") -> Any:
+                    try:
+                        rp = os.path.realpath(os.fsdecode(path))
+                    except Exception:
+                        rp = ""
+                    if rp == target:
+                        fired.append(rp)
+                        raise PermissionError(13, "Permission denied (injected)", rp)
+                    return real_scandir(path)
+
+                os.scandir = scandir  # type: ignore
+                try:
+                    ok, err = self._collect(h)
+                finally:
+                    os.scandir = real_scandir  # type: ignore
+                if fired:
+                    res.count("faults_fired")
+                    res.key(["scandir", sub])
+                else:
+                    res.inconclusive.append(f"scandir fault for {sub} never fired")
+                self._judge(h, sc, before, ok, err, res, f"scandir-error:{_pclass(sub)}",
+                            {"backend": "local", "directory_walk_fails": sub})
+
+            self._with_table(case, one)
+
     def _marker(self, case: Any, res: CaseResult) -> None:
         self._marker_payloads(case, res)
+        self._scandir_faults(case, res)
         modes = [("read_file", "metadata/inflight"), ("open_file", "metadata/inflight"),
                  ("get_modified_time", "metadata/inflight"),
                  ("delete_file", "metadata/inflight"), ("list_files", "metadata/inflight"),
